@@ -16,7 +16,7 @@ from .vcparse import parse_vc, FnContract, TypeOpts
 
 VERIF = os.path.dirname(os.path.dirname(os.path.abspath(__file__)))
 REPO = os.environ.get('VERIF_REPO', '/repo')
-VX = os.path.join(VERIF, 'target', 'release', 'vx')
+VX = os.environ.get('VERIF_VX', os.path.join(VERIF, 'target', 'release', 'vx'))
 
 
 class Inconclusive(Exception):
